@@ -95,92 +95,54 @@ theorem runBatch_agg_distinct (O : Oracles) (qy : Query) (q : AggStmt) (joined :
 /-- one table with its duplicate rows removed -/
 def dedupTable (r : RowOut) : RowOut := { r with rows := dedupFirst tupleSame r.rows }
 
-/-- the result tables of an update+result step: one per environment that updated the state (one per join
-partner; exactly one environment without a join) -/
-def stepTables (O : Oracles) (q : AggStmt) : List (Env × List String) → AggState → Outcome (AggState × List RowOut)
-  | [], st => .ok (st, [])
-  | (env, _) :: rest, st =>
-    (aggUpdateRow O q st env).bind (fun p =>
-      if p.2 then
-        (aggResult O q p.1).bind (fun r =>
-          (stepTables O q rest r.1).bind (fun t => .ok (t.1, r.2 :: t.2)))
-      else stepTables O q rest p.1)
+/-- the result table of an update+result step: every environment of the line (one per join partner; exactly one
+without a join) updates the state, then — iff one of them updated — ONE table is computed -/
+def stepTable (O : Oracles) (q : AggStmt) (envs : List (Env × List String)) (st : AggState) : Outcome (AggState × Option RowOut) :=
+  (aggEnvs O q envs st false).bind (fun p =>
+    if p.2 then (aggResult O q p.1).bind (fun r => .ok (r.1, some r.2)) else .ok (p.1, none))
 
-def collect (acc : Option RowOut) (ts : List RowOut) : Option RowOut := ts.foldl (fun a t => extendOut a (some t)) acc
-
-theorem go_eq_stepTables (O : Oracles) (q : AggStmt) (envs : List (Env × List String)) (st : AggState) (acc : Option RowOut) :
-    executeLine.go O q envs st acc = Outcome.mapOk (fun t => (t.1, collect acc t.2)) (stepTables O q envs st) := by
-  induction envs generalizing st acc with
-  | nil => rfl
-  | cons p rest ih =>
-    obtain ⟨env, keys⟩ := p
-    simp only [executeLine.go, stepTables, bind]
-    cases aggUpdateRow O q st env with
-    | ok pr =>
-      obtain ⟨st', u⟩ := pr
-      simp only [Outcome.bind]
-      cases u with
-      | false => simp only [Bool.false_eq_true, if_false]; exact ih st' acc
-      | true =>
-        simp only [if_true]
-        cases aggResult O q st' with
-        | ok r =>
-          obtain ⟨st'', out⟩ := r
-          simp only
-          rw [ih]
-          cases stepTables O q rest st'' <;> rfl
-        | error k => rfl
-        | panic s => rfl
-        | oracleMissing s => rfl
-    | error k => rfl
-    | panic s => rfl
-    | oracleMissing s => rfl
-
-theorem stepTables_distinct (O : Oracles) {q q' : AggStmt} (h : SameAgg q q') (hd' : q'.distinct = true)
+theorem stepTable_distinct (O : Oracles) {q q' : AggStmt} (h : SameAgg q q') (hd' : q'.distinct = true)
     (hd : q.distinct = false) (envs : List (Env × List String)) (st : AggState) :
-    stepTables O q' envs st = Outcome.mapOk (fun t => (t.1, t.2.map dedupTable)) (stepTables O q envs st) := by
-  induction envs generalizing st with
-  | nil => rfl
-  | cons p rest ih =>
-    obtain ⟨env, keys⟩ := p
-    simp only [stepTables, aggUpdateRow_same O h, aggResult_distinct O h hd' hd]
-    cases aggUpdateRow O q st env with
-    | ok pr =>
-      obtain ⟨st', u⟩ := pr
-      simp only [Outcome.bind]
-      cases u with
-      | false => simp only [Bool.false_eq_true, if_false]; exact ih st'
-      | true =>
-        simp only [if_true]
-        cases aggResult O q st' with
-        | ok r =>
-          obtain ⟨st'', out⟩ := r
-          simp only [Outcome.bind, Outcome.mapOk]
-          rw [ih]
-          cases stepTables O q rest st'' <;> rfl
-        | error k => rfl
-        | panic s => rfl
-        | oracleMissing s => rfl
-    | error k => rfl
-    | panic s => rfl
-    | oracleMissing s => rfl
+    stepTable O q' envs st = Outcome.mapOk (fun t => (t.1, t.2.map dedupTable)) (stepTable O q envs st) := by
+  simp only [stepTable, aggEnvs_same O h, aggResult_distinct O h hd' hd]
+  cases aggEnvs O q envs st false with
+  | ok pr =>
+    obtain ⟨st', u⟩ := pr
+    simp only [Outcome.bind]
+    cases u with
+    | false => rfl
+    | true =>
+      simp only [if_true]
+      cases aggResult O q st' <;> rfl
+  | error k => rfl
+  | panic s => rfl
+  | oracleMissing s => rfl
 
-/-- an update+result step (follow mode) of an aggregate statement returns the concatenation of its step tables -/
+/-- an update+result step (follow mode) of an aggregate statement returns its step table -/
 theorem executeLine_agg_result (O : Oracles) (qy : Query) (q : AggStmt) (hq : qy.stmt = .aggregate q) (idx : JoinIndex)
     (es : EngineState) (l : Line) :
     executeLine O qy idx true es l =
       if !anyResult l.row then .ok (updateLimit false q.limit es none)
       else (lineEnvs qy idx false l).bind (fun envs =>
-        (stepTables O q envs es.agg).bind (fun t =>
-          .ok (updateLimit false q.limit { es with agg := t.1 } (collect none t.2)))) := by
-  simp only [executeLine, hq, if_true, bind, pure]
+        (stepTable O q envs es.agg).bind (fun t =>
+          .ok (updateLimit false q.limit { es with agg := t.1 } t.2))) := by
+  simp only [executeLine, hq, if_true, bind, pure, stepTable]
   split
   · rfl
   · cases lineEnvs qy idx false l with
     | ok envs =>
       simp only [Outcome.bind]
-      rw [go_eq_stepTables]
-      cases stepTables O q envs es.agg <;> rfl
+      cases aggEnvs O q envs es.agg false with
+      | ok pr =>
+        obtain ⟨st', u⟩ := pr
+        cases u with
+        | false => rfl
+        | true =>
+          simp only [if_true]
+          cases aggResult O q st' <;> rfl
+      | error k => rfl
+      | panic s => rfl
+      | oracleMissing s => rfl
     | error k => rfl
     | panic s => rfl
     | oracleMissing s => rfl
